@@ -27,6 +27,9 @@ LAWS = [
     "a sequence of length one is unit(head)",
     "den(Sum(R,e)) = SUMV(R,e); SUMV over the empty range is den e; SUMV of a Zero body is 0",
     "objects of class One (Zero) are all equal",
+    "a sum is defined only if its body is defined at every summation point, in particular at the current values",
+    "a sum whose body is replaced by a pointwise equal expression is unchanged (the replacing callee's contract holds in every environment)",
+    "a pointwise denotation-preserving map over a sequence preserves its product; flattening nested products preserves it",
 ]
 
 
@@ -83,6 +86,12 @@ class ExprTheory:
         self.perm = z3.Function("sorted_seq", S, S)
         self.SUMV = z3.Function("SUMV", self.NodeSet, E, R)
         self.OKSUM = z3.Function("OKSUM", self.NodeSet, E, B)
+        self.noq = z3.Function("no_qfactor", E, B)          # no QFactor anywhere inside
+        self.noqs = z3.Function("no_qfactor_seq", S, B)
+        self.flat = z3.Function("flatten_products", S, S)
+        self.mapped = {}                                     # contract qualname -> ESeq -> ESeq
+        self.eqv: list = []                                  # (x, r): r = f(x) for a denotation-preserving f (every environment)
+        self.sums: dict = {}                                 # id -> (array term, body term)
         self.one = z3.Const("One", E)
         self.zero = z3.Const("Zero", E)
         self.eterms: dict = {}
@@ -145,12 +154,35 @@ class ExprTheory:
                     cls(self.denominator(t)) != CL["Zero"])),
                 z3.Implies(cls(t) == CL["Product"], z3.And(den(t) == self.PROD(self.expressions(t)),
                                                            ok(t) == self.OKS(self.expressions(t)))),
-                z3.Implies(cls(t) == CL["Sum"], z3.And(den(t) == self.SUMV(self.ranges(t), self.body(t)),
+                z3.Implies(cls(t) == CL["Sum"], z3.And(den(t) == self.sumv(self.ranges(t), self.body(t))[0],
                                                        ok(t) == self.OKSUM(self.ranges(t), self.body(t)))),
+            ]
+        for t in ets:
+            out += [
+                z3.Implies(z3.And(self.noq(t), cls(t) == CL["Fraction"]), z3.And(self.noq(self.numerator(t)), self.noq(self.denominator(t)))),
+                z3.Implies(z3.And(self.noq(t), cls(t) == CL["Sum"]), self.noq(self.body(t))),
+                z3.Implies(z3.And(self.noq(t), cls(t) == CL["Product"]), self.noqs(self.expressions(t))),
+                z3.Implies(self.noq(t), cls(t) != CL["QFactor"]),
             ]
         for s in list(self.sterms.values()):
             out += self.seq_laws(s)
+        # a sum whose body is replaced by a pointwise equal one (the callee's contract holds in every environment) is unchanged
+        for (arr, body) in list(self.sums.values()):
+            # the summation points include the current values of the range variables
+            out.append(z3.Implies(self.OKSUM(arr, body), ok(body)))
+            for (x, r) in self.eqv:
+                if body.eq(r):
+                    out.append(z3.Implies(self.OKSUM(arr, x), z3.And(self.OKSUM(arr, r), self.SUMV(arr, r) == self.SUMV(arr, x))))
         return out
+
+    def sumv(self, arr, body):
+        self.sums[(arr.get_id(), body.get_id())] = (arr, body)
+        return self.SUMV(arr, body), self.OKSUM(arr, body)
+
+    def map_fn(self, qual):
+        if qual not in self.mapped:
+            self.mapped[qual] = z3.Function("map_" + qual.split(".")[-1] + f"_{len(self.mapped)}", self.ESeq, self.ESeq)
+        return self.mapped[qual]
 
     def seq_laws(self, s):
         PROD, OKS = self.PROD, self.OKS
@@ -170,6 +202,13 @@ class ExprTheory:
             a = s.arg(0)
             out += [PROD(s) == PROD(a), OKS(s) == OKS(a), self.has_zero(s) == self.has_zero(a),
                     z3.Implies(self.is_nil(a), self.is_nil(s))]
+        elif d == "flatten_products":
+            a = s.arg(0)
+            out += [PROD(s) == PROD(a), OKS(s) == OKS(a), self.noqs(s) == self.noqs(a)]
+        elif d.startswith("map_"):
+            a = s.arg(0)
+            # pointwise denotation-preserving map (by the mapped function's contract): the product is preserved
+            out += [z3.Implies(OKS(a), z3.And(OKS(s), PROD(s) == PROD(a)))]
         elif d == "sorted_seq":
             a = s.arg(0)
             out += [PROD(s) == PROD(a), OKS(s) == OKS(a), self.has_zero(s) == self.has_zero(a),
@@ -185,6 +224,8 @@ class ExprTheory:
 
     # ---- set <-> array
     def set_to_array(self, vset):
+        if getattr(vset, "array", None) is not None:
+            return vset.array
         x = z3.Const("sx", self.L.Node)
         if self.L.k is not None:
             arr = z3.K(self.L.Node, z3.BoolVal(False))
@@ -238,6 +279,7 @@ def expr_attr(ex, base: VExpr, attr):
         r = T.ranges(t)
         v = VSet(lambda x: z3.Select(r, x), owned=False, kind="frozenset")
         v.frozen = True
+        v.array = r
         return v
     if attr == "distribution":
         return VDist(t)
@@ -379,6 +421,19 @@ def eseq_comprehension(ex, e, seq: VESeq):
     if not g.ifs and isinstance(e.elt, ast.Compare) and len(e.elt.ops) == 1 and isinstance(e.elt.ops[0], ast.Eq) \
             and isinstance(e.elt.left, ast.Name) and e.elt.left.id == x and is_ctor(e.elt.comparators[0], "Zero"):
         return VAnyZero(seq)
+    if not g.ifs and isinstance(e.elt, ast.Call) and len(e.elt.args) == 1 and not e.elt.keywords \
+            and isinstance(e.elt.args[0], ast.Name) and e.elt.args[0].id == x:
+        f = ex.ev(e.elt.func)
+        from .values import VFunc
+        if isinstance(f, VFunc) and f.kind == "y0":
+            con = ex.registry.get(f.target.qualname)
+            if con is not None and getattr(con, "den_preserving", False):
+                ex.used_contracts.add(f.target.qualname)
+                # the call may raise for some element: the contract's element-wise condition lifted to the sequence
+                lifted = con.seq_no_raise(ex, f.self_val, seq)
+                for exc, cond in lifted.items():
+                    ex.require(cond, exc, f"map:{f.target.qualname.split('.')[-1]}")
+                return VESeq(T.regs(T.map_fn(f.target.qualname)(seq.t)))
     raise OutOfSubset("comprehension over a sequence of expressions (shape not modelled)")
 
 
